@@ -16,7 +16,7 @@ from harness.props import c01_probe as P
 from harness.props import c02_pristine as PR
 
 RULE = ("random histories (length <= 8 quick / <= 40 thorough) of solve() calls on one instance (half of them inside "
-        "an entered `with` context); each call is a generated valid expression or one with a fault injected at a "
+        "an entered `with` context; about a third of the calls pass the text as a new Expression object); each call is a generated valid expression or one with a fault injected at a "
         "random token position (unknown atom, deleted operand, unbalanced parenthesis, atom constructor raising on a "
         "marker); a few long histories (150 calls quick / 400 thorough) with 75 % rejected calls, and histories that repeat one "
         "rejected call (with a parenthesis) 35-90 times before valid calls. Configurations: default operators with a recording atom; the documentation's string atom with "
@@ -56,7 +56,10 @@ ASSUMPTIONS = [
     "started server reproduces it; if the server cannot be run the run falls back to fresh-instance comparison "
     "(noted). The process-state snapshot holds deterministic items only (numpy error mode / callback / print "
     "options, recursion limit, decimal context, locale, cwd, environment)",
-    "solve() is called with strings (an Expression object passed in is consumed by the call)",
+    "solve(expr: Union[str, Expression]): about a third of the calls of every history pass the text as a NEW "
+    "Expression object (the model takes the text either way: an Expression object is its text at scan position 0); "
+    "an Expression object that was already consumed by an earlier solve() is a different input (its remaining "
+    "text) and is not generated",
     "outcomes are compared as terms (recording atom) or as the custom atoms' values; every raised exception is "
     "one outcome 'err'",
     "the behaviour of customised operators must fit the template language of the translator (get_left/get_right "
@@ -435,17 +438,26 @@ def poison(cfg, es, rng):
     es.expr = ex
 
 
-def call(cfg, es, s):
+def as_object(seed, s):
+    """solve(expr: Union[str, Expression]): about a third of the calls hand the text over as a NEW Expression object
+    (decided by seed and text only, so that shrinking and replay keep the choice)"""
+    import zlib
+    return zlib.crc32(("%s|%s" % (seed, s)).encode()) % 100 < 35
+
+
+def call(cfg, es, s, obj=False):
+    from scinumtools.solver.expression import Expression
+
     def fn():
         try:
-            return canon_tok(cfg, es.solve(s))
+            return canon_tok(cfg, es.solve(Expression(s) if obj else s))
         except Exception:
             return "err"
     return cfg["observe"](fn)
 
 
-def run_fresh(cfg, s):
-    return call(cfg, new_solver(cfg), s)
+def run_fresh(cfg, s, obj=False):
+    return call(cfg, new_solver(cfg), s, obj)
 
 
 def run_history(cfg, exprs, seed=0, poisoned=False, check=None):
@@ -461,8 +473,9 @@ def run_history(cfg, exprs, seed=0, poisoned=False, check=None):
             cfg["between"](rng)
         if poisoned and rng.random() < 0.7:
             poison(cfg, es, rng)
-        fresh = run_fresh(cfg, s)
-        r = call(cfg, es, s)
+        obj = as_object(seed, s)
+        fresh = run_fresh(cfg, s, obj)
+        r = call(cfg, es, s, obj)
         out.append((r, [canon_tok(cfg, t) for t in es.tokens.left], [canon_tok(cfg, t) for t in es.tokens.right], fresh))
         if cfg["pristine"] and POLLUTER["exprs"] is None:
             now = PR.process_state()
@@ -732,9 +745,10 @@ def judge(ctx, cfgname, cfg, exprs, kinds=None, model=None, seed=0, pristine=Non
                 small = exprs[:k + 1]
             rr = run_history(cfg, small, seed=seed)
             ctx.violation("history:" + cfgname,
-                          "call %d of a history on one %s instance%s: solve(%r) gives %s, a fresh instance gives %s" %
+                          "call %d of a history on one %s instance%s: solve(%s) gives %s, a fresh instance gives %s" %
                           (len(small), cfgname, (" %s" % json.dumps(cfg["mcfg"])) if isinstance(cfg.get("mcfg"), dict) else "",
-                           s, json.dumps(rr[-1][0])[:200], json.dumps(rr[-1][3])[:200]),
+                           ("Expression(%r)" % s) if as_object(seed, s) else repr(s),
+                           json.dumps(rr[-1][0])[:200], json.dumps(rr[-1][3])[:200]),
                           {"cfg": cfgname, "config": cfg.get("mcfg"), "exprs": small, "seed": seed,
                            "outcome": rr[-1][0], "fresh": rr[-1][3]})
             break
@@ -841,8 +855,9 @@ def interleaved_stream(ctx, cfgname, cfg, histories):
         ctx.count("%s.interleaved_calls" % cfgname, len(exprs))
         for k, s in enumerate(exprs):
             es = a if k % 2 == 0 else b
-            fresh = run_fresh(cfg, s)
-            out = call(cfg, es, s)
+            obj = as_object(k, s)
+            fresh = run_fresh(cfg, s, obj)
+            out = call(cfg, es, s, obj)
             if out != fresh:
                 ctx.violation("history:" + cfgname,
                               "two %s instances sharing operators/steps, called alternately: solve(%r) gives %s, "
@@ -984,7 +999,7 @@ def replay(ctx: Ctx, payload):
     base = pristine_outcomes(sorted(set(rp["exprs"]))) if cfg.get("pristine") else {}
     for s, (out, left, right, fresh) in zip(rp["exprs"], run_history(cfg, rp["exprs"], seed=rp.get("seed", 0),
                                                                       poisoned=bool(rp.get("poisoned")))):
-        print("solve(%r) -> %s   [fresh instance: %s]%s   buffers left behind: %s | %s" %
-              (s, json.dumps(out)[:160], json.dumps(fresh)[:160],
+        print("solve(%s) -> %s   [fresh instance: %s]%s   buffers left behind: %s | %s" %
+              (("Expression(%r)" % s) if as_object(rp.get("seed", 0), s) else repr(s), json.dumps(out)[:160], json.dumps(fresh)[:160],
                ("   [process that solved nothing before: %s]" % json.dumps(base[s])[:160]) if s in base else "", left, right))
     return 0
